@@ -18,11 +18,9 @@ def ResRel (x y : Res XVal) : Prop :=
   | .error e, .error e' => e = e'
   | _, _ => False
 
-def OptRel (x y : Option XVal) : Prop :=
-  match x, y with
-  | some u, some v => DictEq u v
-  | none, none => True
-  | _, _ => False
+inductive OptRel : Option XVal → Option XVal → Prop
+  | none : OptRel none none
+  | some {u v : XVal} : DictEq u v → OptRel (some u) (some v)
 
 def ResOptRel (x y : Res (Option XVal)) : Prop :=
   match x, y with
@@ -65,18 +63,20 @@ theorem bind_eq {α β} {x y : Res β} {f g : β → Res α} (h : x = y) (hfg : 
 
 theorem lookup_rel {d d' : Dict} (h : DictRel d d') (k : List Char) : OptRel (d.lookup k) (d'.lookup k) := by
   rcases h.lookups k with ⟨h1, h2⟩ | ⟨v, v', h1, h2, hr⟩
-  · rw [h1, h2]; trivial
-  · rw [h1, h2]; exact hr
+  · rw [h1, h2]; exact .none
+  · rw [h1, h2]; exact .some hr
 
 theorem getItem_congr {a b : XVal} (h : DictEq a b) (k : String) : ResRel (a.getItem k) (b.getItem k) := by
   cases h with
   | str s => simp [XVal.getItem, ResRel, err]
   | list _ => simp [XVal.getItem, ResRel, err]
-  | dict h1 h2 =>
+  | @dict d d' h1 h2 =>
     have := lookup_rel ⟨h1, h2⟩ k.toList
     simp only [XVal.getItem]
-    revert this
-    cases List.lookup k.toList _ <;> cases List.lookup k.toList _ <;> simp [OptRel, ResRel, err, pure, Except.pure]
+    generalize List.lookup k.toList d = x, List.lookup k.toList d' = y at this
+    cases this with
+    | none => simp [ResRel, err]
+    | some hr => simpa [ResRel, pure, Except.pure] using hr
 
 theorem get?_congr {a b : XVal} (h : DictEq a b) (k : String) : ResOptRel (a.get? k) (b.get? k) := by
   cases h with
@@ -241,25 +241,12 @@ theorem keysOf_congr {a b : XVal} (h : DictEq a b) : keysOf a = keysOf b := by
   unfold keysOf
   rw [mapM_congr (fun _ _ => keyOf_congr) (asList_congr h)]
 
-/-- case analysis on two `OptRel` options inside a larger term -/
-theorem optRel_cases {α} {u v : Option XVal} (h : OptRel u v) {F G : Option XVal → Res α}
-    (hnone : F none = G none) (hsome : ∀ x y, DictEq x y → F (some x) = G (some y)) : F u = G v := by
-  cases u with
-  | none =>
-    cases v with
-    | none => exact hnone
-    | some y => simp [OptRel] at h
-  | some x =>
-    cases v with
-    | none => simp [OptRel] at h
-    | some y => exact hsome x y h
-
 theorem signatureOf_congr {a b : XVal} (h : DictEq a b) : signatureOf a = signatureOf b := by
   unfold signatureOf
   repeat gstep
-  refine optRel_cases (by assumption) ?_ ?_
-  · rfl
-  · intro x y hxy
+  cases ‹OptRel _ _› with
+  | none => rfl
+  | some hxy =>
     dsimp only
     repeat gstep
     rfl
@@ -288,15 +275,92 @@ theorem signersOf_congr (gs : GlueSwitches) {a b : XVal} (h : DictEq a b) : sign
     | true => exact mapM_congr (fun _ _ => signerStep_congr) (asList_congr h)
     | false => exact iter_mapM_congr (e := .error .type) (fun _ _ => signerStep_congr) (fun _ => rfl) h
 
+theorem getD_rel {o o' : Option XVal} (h : OptRel o o') {d d' : XVal} (hd : DictEq d d') :
+    DictEq (o.getD d) (o'.getD d') := by
+  cases h with
+  | none => exact hd
+  | some hr => exact hr
+
+macro "gleaf2" : tactic => `(tactic| first
+  | gleaf
+  | exact keysOf_congr (by assumption)
+  | exact signaturesOf_congr (by assumption)
+  | exact signaturePolicyOf_congr (by assumption)
+  | exact signersOf_congr _ (getD_rel (by assumption) (DictEq.refl _)))
+
+macro "gstep2" : tactic => `(tactic| first
+  | gstep
+  | (refine bind_eq (by gleaf2) ?_; intro _))
+
 theorem requestBundleOf_congr (gs : GlueSwitches) {a b : XVal} (h : DictEq a b) :
     requestBundleOf gs a = requestBundleOf gs b := by
   unfold requestBundleOf
   repeat gstep
-  refine optRel_cases (by assumption) ?_ ?_
-  · rfl
-  · intro x y hxy
+  cases ‹OptRel _ _› with
+  | none => rfl
+  | some hxy =>
     dsimp only
-    trace_state
-    sorry
+    rw [truthy_congr hxy]
+    split
+    · rfl
+    · refine bind_eq ?_ ?_
+      · congr 1
+        funext name
+        gstep
+        rw [contains_congr (by assumption)]
+      · intro _
+        repeat gstep2
+        rfl
+
+theorem requestBundlesOf_congr (gs : GlueSwitches) {l l' : List XVal} (h : ListEq l l') :
+    requestBundlesOf gs l = requestBundlesOf gs l' := by
+  unfold requestBundlesOf
+  rw [mapM_congr (fun _ _ => requestBundleOf_congr gs) h]
+
+theorem timestampOf_congr {a b : XVal} (h : DictEq a b) : timestampOf a = timestampOf b := by
+  unfold timestampOf
+  rw [contains_congr h]
+  split
+  · repeat gstep
+    rfl
+  · rfl
+
+macro "gstep3" : tactic => `(tactic| first
+  | gstep2
+  | (refine bind_eq (timestampOf_congr (by assumption)) ?_; intro _))
+
+/-- **`request_from_xml` after the reader: `DictEq` dicts give the same `Request` (or the same error).** -/
+theorem requestFromDict_congr (gs : GlueSwitches) {a b : XVal} (h : DictEq a b) :
+    requestFromDict gs a = requestFromDict gs b := by
+  unfold requestFromDict
+  repeat gstep
+  dsimp only
+  refine bind_eq (requestBundlesOf_congr gs (asList_congr (getD_rel (by assumption) (DictEq.refl _)))) ?_
+  intro _
+  repeat gstep3
+  rfl
+
+theorem responseBundleOf_congr {a b : XVal} (h : DictEq a b) : responseBundleOf a = responseBundleOf b := by
+  unfold responseBundleOf
+  repeat gstep2
+  rfl
+
+theorem responseBundlesOf_congr (gs : GlueSwitches) {a b : XVal} (h : DictEq a b) :
+    responseBundlesOf gs a = responseBundlesOf gs b := by
+  unfold responseBundlesOf
+  refine bind_eq ?_ (fun _ => rfl)
+  cases gs.wrapsSingleResponseBundle with
+  | true => exact mapM_congr (fun _ _ => responseBundleOf_congr) (asList_congr h)
+  | false => exact iter_mapM_congr (e := .error .type) (fun _ _ => responseBundleOf_congr) (fun _ => rfl) h
+
+/-- **`response_from_xml` after the reader: `DictEq` dicts give the same `Response` (or the same error).** -/
+theorem responseFromDict_congr (gs : GlueSwitches) {a b : XVal} (h : DictEq a b) :
+    responseFromDict gs a = responseFromDict gs b := by
+  unfold responseFromDict
+  repeat gstep
+  refine bind_eq (responseBundlesOf_congr gs (by assumption)) ?_
+  intro _
+  repeat gstep3
+  rfl
 
 end Kskm.Xml
